@@ -32,7 +32,18 @@ def _c04_load_by_name_into_x0(v):
     return v.get("kind") == "pseudo-effect" and st.get("k") == "ldv" and st.get("rd") == 0 and "group faults" in v.get("msg", "")
 
 
-MATCHERS = {"c03_block_larger_than_data_base": _c03_block_larger_than_data_base, "c04_load_by_name_into_x0": _c04_load_by_name_into_x0}
+def _c15_decimal_longer_than_int_limit(v):
+    """a DECIMAL literal with more digits than the interpreter converts (sys.get_int_max_str_digits(), 4300 by default)
+    escapes load_program as the interpreter's raw ValueError"""
+    import re
+    import sys
+
+    lim = getattr(sys, "get_int_max_str_digits", lambda: 4300)() or 4300
+    text = (v.get("case") or {}).get("text") or ""
+    return v.get("kind") == "untyped-load-error" and "ValueError" in v.get("msg", "") and "integer string conversion" in v.get("msg", "") and re.search(r"(?<![0-9a-fA-FxX])[0-9]{%d,}" % (lim + 1), text) is not None
+
+
+MATCHERS = {"c15_decimal_longer_than_int_limit": _c15_decimal_longer_than_int_limit, "c03_block_larger_than_data_base": _c03_block_larger_than_data_base, "c04_load_by_name_into_x0": _c04_load_by_name_into_x0}
 
 
 def load():
